@@ -45,3 +45,24 @@ Definition read_frame_chunked (offers : list N) (cs : chunks) : result ferr ((he
       end
     end
   end.
+
+(* where the reader stands after the call, whatever its answer: behind the frame; behind the nine
+   header bytes when the header was refused; at the end when the stream ran out *)
+Definition reader_after (offers : list N) (cs : chunks) : chunks :=
+  match read_n (S (stream_len cs)) 9 offers cs [] with
+  | (None, r) => r
+  | (Some raw, cs1) =>
+    match run parse_header raw with
+    | Err _ => cs1
+    | Ok (h, _) => snd (read_n (S (stream_len cs1)) (h_length h) (skipn 9 offers) cs1 [])
+    end
+  end.
+
+(* a stream cut into chunks of the given sizes, used cyclically (the tie's reader) *)
+Fixpoint cut_chunks (fuel : nat) (sizes all : list N) (b : bytes) : chunks :=
+  match fuel, b with
+  | O, _ | _, [] => []
+  | S f, _ =>
+    let (k, rest) := match sizes with s :: r => (N.max 1 s, r) | [] => (1, []) end in
+    firstn (N.to_nat k) b :: cut_chunks f (match rest with [] => all | _ => rest end) all (skipn (N.to_nat k) b)
+  end.
